@@ -56,7 +56,7 @@ CLAIMS["C05"] = ("Cycle verification, proof-level and UNBOUNDED (Verus on the ex
     "CuckarooContext::verify and CuckaroomContext::verify (directed: one simple directed cycle, no node entered twice) return Ok ONLY IF the nonces are strictly ascending and within the edge mask and the 2*size edge endpoints form ONE SIMPLE CYCLE through all `size` edges: starting at endpoint 0 and repeatedly moving to the "
     "UNIQUE other endpoint at the same node and then to the other end of that edge, the walk returns to endpoint 0 for the first time after exactly `size` steps, every node met has exactly two endpoints (no branch is skipped) and all "
     "visited endpoints are distinct -- proved through an invariant of the bucket linked lists (prev = cyclic predecessor inside the bucket), full coverage of a bucket by the inner loop, injectivity of the walk and a pigeonhole bound; "
-    "no index is out of range. Towards the converse, every error kind except the xor pre-check carries a proved reason: wrong-length / edge-too-big / not-ascending ONLY for that reason; 'branch' ONLY IF three distinct endpoints share a node (Cuckaroom: the walk runs into one of its own edges); 'dead end' ONLY IF some endpoint has no partner; 'too short' ONLY IF the walk closes after m != size steps -- each incompatible with one simple cycle through all edges, so a change that makes a verifier reject valid proofs through one of these paths fails a postcondition. That the xor pre-check never fires on a simple cycle (pairing argument over xor), termination of the two walking loops, SipHash itself are NOT decided. CuckaroodContext::verify (the fifth variant, header version 2): proved memory-safe, overflow-free and TERMINATING for every proof (all slot indices in range, bucket lists strictly descending, the cycle walk bounded by the proof size) -- the last point failed on the pinned tree (finding F11: a crafted proof made verify() spin forever) and was repaired; that its Ok implies a simple alternating cycle is not decided. "
+    "no index is out of range. Towards the converse, every error kind except the xor pre-check carries a proved reason: wrong-length / edge-too-big / not-ascending ONLY for that reason; 'branch' ONLY IF three distinct endpoints share a node (Cuckaroom: the walk runs into one of its own edges); 'dead end' ONLY IF some endpoint has no partner; 'too short' ONLY IF the walk closes after m != size steps -- each incompatible with one simple cycle through all edges, so a change that makes a verifier reject valid proofs through one of these paths fails a postcondition. All four verifiers are also proved to TERMINATE on every proof (the outer walk visits distinct endpoints, hence fewer than 2*size steps; the inner walk goes once round a bucket list). That the xor pre-check never fires on a simple cycle (pairing argument over xor) and SipHash itself are NOT decided. CuckaroodContext::verify (the fifth variant, header version 2): proved memory-safe, overflow-free and TERMINATING for every proof (all slot indices in range, bucket lists strictly descending, the cycle walk bounded by the proof size) -- the last point failed on the pinned tree (finding F11: a crafted proof made verify() spin forever) and was repaired; that its Ok implies a simple alternating cycle is not decided. "
     "Serialisation (Kani, complete per edge_bits): whatever Proof::read accepts re-encodes to the same bytes (non-zero padding bits refused), every nonce fits edge_bits, decode(encode(p)) == p, edge_bits 0 and >63 refused "
     "(quick: 10 representative edge_bits, thorough: all 63; proof sizes 42, 8, 5). Difficulty from a proof hash/scaling (Verus). BOUNDED stand-ins kept in the thorough tier only: accept <=> cycle for cycle length 4 (Kani, best effort, memory-capped).",
     VERUS_TB + KANI_TB + "siphash_block / sipnode uninterpreted; one assumed fact about u64::leading_zeros (>= 1 below 2^63) used only for `1 + mask`; proofsize in 1..=2^20.",
